@@ -257,11 +257,32 @@ pub fn split(c: &mut Choices, prog: &Program, nfiles: usize) -> Split
 			}
 		}
 	}
-	for f in 0..nfiles
+	// Importing a file brings in ALL its `pub` items, and whatever their
+	// interfaces mention must be visible in the importer as well. Iterate to
+	// a fixed point over all files (what is `pub` grows as needs grow).
+	loop
 	{
-		loop
+		let mut changed = false;
+		let public: BTreeSet<Top> = needs.iter().flat_map(|n| n.iter().copied()).collect();
+		for f in 0..nfiles
 		{
+			let imported_files: BTreeSet<usize> =
+				needs[f].iter().map(|n| file_of(&home, *n)).collect();
 			let mut extra = BTreeSet::new();
+			// every public item of every imported file is seen by f
+			for p in &public
+			{
+				if imported_files.contains(&file_of(&home, *p))
+				{
+					for r in interface_refs(prog, *p)
+					{
+						if file_of(&home, r) != f && !needs[f].contains(&r)
+						{
+							extra.insert(r);
+						}
+					}
+				}
+			}
 			for n in &needs[f]
 			{
 				for r in interface_refs(prog, *n)
@@ -272,11 +293,15 @@ pub fn split(c: &mut Choices, prog: &Program, nfiles: usize) -> Split
 					}
 				}
 			}
-			if extra.is_empty()
+			if !extra.is_empty()
 			{
-				break;
+				needs[f].extend(extra);
+				changed = true;
 			}
-			needs[f].extend(extra);
+		}
+		if !changed
+		{
+			break;
 		}
 	}
 	let mut imports = Vec::new();
